@@ -18,7 +18,7 @@ The property to break (this is all the specification you get):
   Anchors (files): {', '.join(prop['anchors']['files'])}
   Mechanisms: {'; '.join(m['name'] + ' (' + m['where'] + ')' for m in prop['anchors']['mechanism'])}
 
-Task: produce {n} different, independent changes to the Zeno source (each as its own patch) that each BREAK this property while (a) the code still compiles, (b) the ENTIRE existing test suite still passes unchanged (you may not edit existing tests), and (c) the change looks like something a developer could plausibly write (a refactor gone slightly wrong, an "optimisation", an off-by-one, a wrong variable, a reordered pair of statements, a lost error check, a changed condition ...). Ask yourself what needs to happen for the bug to show: prefer changes that need something specific to manifest - a particular interleaving, a crash or fault at a particular point, a multi-step sequence of operations, an unusual input, a boundary value, or two cooperating sites that each look fine alone - NOT ones that any ordinary use exposes at once. Make the {n} changes different in kind from one another (different functions / different mechanisms of the property).
+Task: produce {n} different, independent changes to the Zeno source (each as its own patch) that each BREAK this property while (a) the code still compiles, (b) the ENTIRE existing test suite still passes unchanged (you may not edit existing tests), and (c) the change looks like something a developer could plausibly write (a refactor gone slightly wrong, an "optimisation", an off-by-one, a wrong variable, a reordered pair of statements, a lost error check, a changed condition ...). Ask yourself what needs to happen for the bug to show: prefer changes that need something specific to manifest - a particular interleaving, a crash or fault at a particular point, a multi-step sequence of operations, an unusual input, a boundary value, or two cooperating sites that each look fine alone - NOT ones that any ordinary use exposes at once. Make the {n} changes different in kind from one another (different functions / different mechanisms of the property). At least one of them should sit OUTSIDE the most obvious function for this property - in a caller, a helper it relies on, configuration / flag handling, start-up or shut-down code, or another package the mechanism depends on - and at least one should need two or more steps, a particular timing, or a fault (error return, cancelled context, restart) to show.
 
 For each change i in 1..{n} deliver, in {wt}-out/<i>/ :
   - patch.diff  : `git diff` of the change against the worktree's HEAD (must apply with `git apply` on a clean checkout)
